@@ -107,9 +107,19 @@ func build(r *mon.Run, i int, ids map[string]*gen.Identity) *scenario {
 	if ver == version.VersionB1 {
 		b.PrimaryURL = b.Exchanges[0].Request.URL
 	}
-	// partition the hosts among 1..3 signers (one more signer may cover nothing)
+	// partition the hosts among 1..3 signers (one more signer may cover nothing).
+	// Half of the scenarios come in pairs that follow each other within a process: both are first signed by the same
+	// identity (the same CertChain value, as a caller signing many bundles with its certificate does) and then by
+	// different further signers.
 	nsig := 1 + g.Intn(3)
 	perm := g.Perm(len(hostPool))
+	slot := i / maxInt(1, r.NShards)
+	paired, second := slot%4 < 2, slot%4 == 1
+	if paired {
+		pg := r.Rand("pair", slot/4*1000+r.Shard)
+		nsig = 2 + pg.Intn(2)
+		perm = pg.Perm(len(hostPool))
+	}
 	base := time.Unix(1600000000+int64(g.Intn(100000)), 0)
 	for s := 0; s < nsig; s++ {
 		var hosts []string
@@ -118,15 +128,27 @@ func build(r *mon.Run, i int, ids map[string]*gen.Identity) *scenario {
 				hosts = append(hosts, hostPool[pi])
 			}
 		}
-		key := strings.Join(hosts, "+") + fmt.Sprintf("/c%d", (i+s)%2)
+		curve := (i + s) % 2
+		alt := ""
+		if paired {
+			curve = (slot/4 + s) % 2
+			if second && s > 0 {
+				alt = "/alt"
+			}
+		}
+		key := strings.Join(hosts, "+") + fmt.Sprintf("/c%d", curve) + alt
 		id := ids[key]
 		if id == nil {
 			ig := r.Rand("id/"+key, 0)
-			id = gen.NewIdentity(ig, gen.Curves[(i+s)%2], hosts[0], 1+ig.Intn(2))
+			id = gen.NewIdentity(ig, gen.Curves[curve], hosts[0], 1+ig.Intn(3))
 			// the leaf must cover all its hosts: rebuild the leaf with every SAN
 			leaf := gen.Cert(id.Key, gen.CertOpts{CN: hosts[0], DNS: hosts, Serial: int64(1000 + len(ids))})
 			id.Certs[0] = leaf
 			id.Chain[0].Cert = leaf
+			if ig.Bool() {
+				// a chain value with spare capacity, as append-built slices have
+				id.Chain = append(make(certurl.CertChain, 0, len(id.Chain)+1+ig.Intn(3)), id.Chain...)
+			}
 			ids[key] = id
 		}
 		sc.signers = append(sc.signers, signerSpec{id: id, hosts: hosts, date: base.Add(time.Duration(s) * time.Minute), duration: mon.Pick(g, []time.Duration{time.Hour, 24 * time.Hour, 604800 * time.Second, time.Second}), rs: mon.Pick(g, []int{1, 16, 17, 4096, 16384})})
@@ -302,6 +324,13 @@ func reread(r *mon.Run, sc *scenario, f []byte, class, mut string) *bundle.Bundl
 		r.Eval(class + ":rejected-at-read")
 		r.Distinct(fmt.Sprintf("%s|%s|%s|rejected-at-read", sc.ver, class, mutKind(mut)))
 		return nil
+	}
+	return b
+}
+
+func maxInt(a, b int) int {
+	if a > b {
+		return a
 	}
 	return b
 }
